@@ -110,7 +110,17 @@ def gen_compound(draw):
             seen.add(tuple(d))
             out.append(d)
     out = list(draw(st.permutations(out)))
-    return {"k": "compound", "shape": shape, "decl": out, "src": out.index(src),
+    # units defined on top of a declared price unit (cent per x = 0.01 EUR per x): the currency is only
+    # reachable through the unit's definition chain
+    aliases = []
+    if draw(st.integers(0, 2)) == 0:
+        for _ in range(draw(st.integers(1, 2))):
+            aliases.append([draw(st.integers(0, len(out) - 1)), draw(st.sampled_from(["1/100", "100", "1/8", "12"]))])
+    src_alias = draw(st.integers(0, len(aliases) - 1)) if aliases and draw(st.booleans()) else None
+    if src_alias is not None and out[aliases[src_alias][0]][0] != src_cur:
+        src_alias = None
+    return {"k": "compound", "shape": shape, "decl": out, "src": out.index(src), "aliases": aliases,
+            "src_alias": src_alias,
             "amt": draw(gen.encode(gen.fractions(), ("int", "dec", "frac"))), "rate": r, "op": op}
 
 
@@ -285,8 +295,17 @@ def run_case(case, ctx):
         for idx, e in zip(d[1:], exps):
             f *= _XF[idx] ** e
         units.append((u, d[0], f))
+    for bi, f in case.get("aliases", []):
+        bu, bcur, bf = units[bi]
+        fr = Fraction(f)
+        au = P.new_unit(f"c10a{n}_{len(units)}", "alias", mknum(["frac", f]) * bu)
+        units.append((au, bcur, bf * fr))
     ctx.label(f"shape/{shape}")
-    su, scur, sf = units[case["src"]]
+    if case.get("src_alias") is not None:
+        ctx.label("compound/src_is_chained_unit")
+        su, scur, sf = units[len(case["decl"]) + case["src_alias"]]
+    else:
+        su, scur, sf = units[case["src"]]
     p = P(mknum(case["amt"]), su)
     a = F(p.amount)
     need, target, factor = (c2, c1, 1 / rv) if op == "p/r" else (c1, c2, rv)
